@@ -205,3 +205,32 @@ v('c16-inter-rhs-any', ['C16'], RX, "r.expr.concat_or_atomic() && list.iter().al
 v('c16-empty-rhs', ['C16'], RX, "            (_, Empty) => false,", "            (_, Empty) => true,", 'C16.R1/sub_language/')
 v('c16-remove-idx', ['C16'], RX, "                if is_subsumed(a[i], a) {\n                    a.remove(i);", "                if is_subsumed(a[i], a) {\n                    a.remove(0);", 'C16.R2/remove_subsumed')
 v('c16-included-in-swap', ['C16'], RX, "        sub_language(self, other)", "        sub_language(other, self)", 'C16.R1/included_in')
+
+# ---- C13
+AUF = 'src/automata.rs'
+v('prefix-C13-cleanup-first', ['C13'], AUF, """            let spec = s.make_partition()?;
+            if s.default_successor.is_none() && !spec.empty_complement() {
+                return Err(Error::MissingDefaultSuccessor);
+            }
+            s.cleanup();""", "            s.cleanup();", 'C13.R1/AutomatonBuilder::build/cleanup-before-validate')
+v('c13-no-completeness', ['C13'], AUF, """            if s.default_successor.is_none() && !spec.empty_complement() {
+                return Err(Error::MissingDefaultSuccessor);
+            }
+            s.cleanup();""", "            s.cleanup();", 'C13.R1')
+v('c13-choose-always', ['C13'], AUF, "if self.default_successor.is_none() && !self.transitions.is_empty() {", "if !self.transitions.is_empty() {", 'C13.R2/choose_default_successor')
+v('c13-retain-inverted', ['C13'], AUF, "self.transitions.retain(|x| x.1 != i)", "self.transitions.retain(|x| x.1 == i)", 'C13.R2/remove_transitions_to_default')
+v('c13-successor-index', ['C13'], AUF, "                result[i] = s.1;", "                result[n - 1 - i] = s.1;", 'C13.R3/make_successor')
+v('c13-state-final', ['C13'], AUF, """            let new_state = State {
+                id: i,
+                is_final: s.is_final,""", """            let new_state = State {
+                id: i,
+                is_final: !s.is_final,""", 'C13.R3/build')
+v('c13-get-state-id', ['C13'], AUF, "                self.id_map.insert(state.clone(), i);\n                self.size += 1;", "                self.id_map.insert(state.clone(), i + 1);\n                self.size += 1;", 'C13.R4/get_state_id')
+v('c13-initial', ['C13'], AUF, """            num_final_states,
+            initial_state: 0,
+            states: state_array.into(),
+        })""", """            num_final_states,
+            initial_state: n - 1,
+            states: state_array.into(),
+        })""", 'C13.R4/build')
+v('c13-transition-target', ['C13'], AUF, "        let j = self.get_state_id(next);\n        self.states[i].add_transition(set, j);", "        let j = self.get_state_id(next);\n        self.states[i].add_transition(set, i);", 'C13.R4/add_transition')
